@@ -24,7 +24,7 @@ FUNCTIONS = ['dd_dtw.c: dtw_distance, dtw_distance_euclidean, dtw_distance_ndim,
              'dtw_cc.pyx DTWSettings.__init__ (transcribed option mapping)']
 BOUNDS = {
     'quick': {'1-D without data dependent control': 'r,c <= 4, all windows, penalty None|symbolic, psi None/int/4-tuples',
-              '1-D with max_step / max_dist / use_pruning / only_ub': 'r,c <= 3', 'ndim': '2, r,c <= 2 (3 without forks)',
+              '1-D with max_dist / use_pruning / only_ub': 'r*c <= 6 (+ 3x3 without max_step)', '1-D with max_step': 'r*c <= 4', 'ndim': '2, r,c <= 2 (3 without forks)',
               'inner_dist': 'squared euclidean, euclidean'},
     'thorough': {'1-D without data dependent control': 'r,c <= 5', '1-D with data dependent control': 'r*c <= 12',
                  'ndim': '1..3, r,c <= 3', 'inner_dist': 'both'},
